@@ -258,3 +258,37 @@ def _judge_one(module, records, *, name, env, timeout):
         raise MachineryError('judge %s evaluated %d of %d records\n%s' % (module, r.distinct, len(records), r.stdout[-2000:]))
     fails = [(x[0], x[1]) for x in r.tags.get('FAIL', [])]
     return fails, r
+
+
+def apalache_inductive(module, what, rejected_nexts=(), timeout=900):
+    """Init => IndInv (length 0) and IndInv /\\ Next => IndInv' (length 1 from IndInit) for spec/<module>.tla with Apalache;
+    every next-state relation named in rejected_nexts (a pre-fix algorithm) must FAIL the step case (non-vacuity)."""
+    import shutil
+    exe = shutil.which('apalache-mc')
+    if not exe:
+        raise MachineryError('apalache-mc not found')
+    out = sub_scratch('apalache')
+    env = dict(os.environ)
+    env.setdefault('TMPDIR', out)
+    res = {}
+    cases = [('base', ['--init=Init', '--inv=IndInv', '--length=0'], True),
+             ('step', ['--init=IndInit', '--inv=IndInv', '--length=1'], True)]
+    for nx in rejected_nexts:
+        cases.append(('step_rejected:' + nx, ['--init=IndInit', '--next=' + nx, '--inv=IndInv', '--length=1'], False))
+    for name, args, want_ok in cases:
+        for attempt in (1, 2):          # a JVM can vanish without a verdict on a loaded machine: once more before giving up
+            p = subprocess.run([exe, 'check'] + args + ['--out-dir=' + out, module + '.tla'], cwd=SPEC, capture_output=True,
+                               text=True, timeout=timeout, env=env)
+            ok = 'EXITCODE: OK' in p.stdout
+            bad = 'EXITCODE: ERROR (12)' in p.stdout and 'invariant' in p.stdout and 'violated' in p.stdout
+            if ok or bad:
+                break
+        if not (ok or bad):
+            raise MachineryError('Apalache gave no verdict on the %s case of %s:\n%s' % (name, module, p.stdout[-1500:]))
+        if want_ok and not ok:
+            raise MachineryError('Apalache does not discharge the %s case of IndInv (%s.tla):\n%s' % (name, module, p.stdout[-1500:]))
+        if not want_ok and not bad:
+            raise MachineryError('Apalache accepts %s of %s.tla, which stands for a pre-fix algorithm (vacuous invariant?)' % (name, module))
+        res[name] = 'OK' if ok else 'violated (as required)'
+    res['what'] = what
+    return res
